@@ -1108,7 +1108,9 @@ fn collect_inlinable(items: &[syn::Item], impl_of: Option<&String>, skip: &std::
 }
 struct Inliner<'a> { helpers: &'a BTreeMap<String, HelperBody>, inlined: Vec<String>, n: usize, tail: bool }
 impl<'a> Inliner<'a> {
-    fn build(&mut self, name: &str, args: Vec<Expr>) -> Option<Expr> {
+    fn build(&mut self, name: &str, args: Vec<Expr>) -> Option<Expr> { self.build_r(name, args, false) }
+    // `renamed_self`: the caller is a by-value `mut self` function whose `self` was rebound as `__self`
+    fn build_r(&mut self, name: &str, args: Vec<Expr>, renamed_self: bool) -> Option<Expr> {
         let h = self.helpers.get(name)?;
         if h.params.len() != args.len() { return None; }
         if h.early_exit && !self.tail { return None; }
@@ -1126,7 +1128,20 @@ impl<'a> Inliner<'a> {
             if matches!(ty, syn::Type::ImplTrait(_)) { stmts.push(syn::parse_quote!(let #pat = #id;)); }
             else { stmts.push(syn::parse_quote!(let #pat: #ty = #id;)); }
         }
-        let body = &h.block;
+        fn rs(ts: TokenStream) -> TokenStream {
+            ts.into_iter().map(|tt| match tt {
+                proc_macro2::TokenTree::Ident(id) if id == "self" => proc_macro2::TokenTree::Ident(syn::Ident::new("__self", id.span())),
+                proc_macro2::TokenTree::Group(g) => {
+                    let mut ng = proc_macro2::Group::new(g.delimiter(), rs(g.stream()));
+                    ng.set_span(g.span());
+                    proc_macro2::TokenTree::Group(ng)
+                }
+                o => o,
+            }).collect()
+        }
+        let body: syn::Block = if renamed_self {
+            match syn::parse2::<Block>(rs(h.block.to_token_stream())) { Ok(b) => b, Err(_) => return None }
+        } else { h.block.clone() };
         self.inlined.push(name.to_string());
         Some(syn::parse_quote!({ #(#stmts)* #body }))
     }
@@ -1167,9 +1182,10 @@ impl<'a> Inliner<'a> {
             }
             Expr::MethodCall(m) => {
                 let recv_is_self = matches!(&*m.receiver, Expr::Path(p) if p.path.is_ident("self"));
+                let recv_is_renamed = matches!(&*m.receiver, Expr::Path(p) if p.path.is_ident("__self"));
                 let name = m.method.to_string();
-                if recv_is_self && m.turbofish.is_none() && self.helpers.get(&name).map(|h| h.has_self).unwrap_or(false) {
-                    repl = self.build(&name, m.args.iter().cloned().collect());
+                if (recv_is_self || recv_is_renamed) && m.turbofish.is_none() && self.helpers.get(&name).map(|h| h.has_self).unwrap_or(false) {
+                    repl = self.build_r(&name, m.args.iter().cloned().collect(), recv_is_renamed);
                 }
             }
             _ => {}
